@@ -201,6 +201,21 @@ def forbidden_scan(only=None):
         code = "".join(out)
         for m in pat.finditer(code):
             bad.append("%s: %s" % (os.path.relpath(path, COQ), m.group(1)))
+        # Variable / Hypothesis / Context outside a Section declare an axiom-like global
+        stack = []
+        for sent in re.split(r'\.(?:\s|$)', code):
+            t = sent.strip()
+            m = re.match(r'(?:Local\s+|Global\s+|#\[[^\]]*\]\s*)*(Section|Module Type|Module)\s+([A-Za-z_][\w\']*)\s*(.*)$', t, re.S)
+            if m and not (m.group(1) != "Section" and ":=" in m.group(3)):
+                stack.append((m.group(1), m.group(2)))
+                continue
+            m = re.match(r'End\s+([A-Za-z_][\w\']*)$', t)
+            if m and stack:
+                stack.pop()
+                continue
+            m = re.match(r'(?:Local\s+|Global\s+|#\[[^\]]*\]\s*)*(Variables?|Hypothes[ie]s|Context)\b', t)
+            if m and not any(k == "Section" for k, _ in stack):
+                bad.append("%s: %s outside a Section" % (os.path.relpath(path, COQ), m.group(1)))
     return bad
 
 
